@@ -77,6 +77,10 @@ class AwesomeyamlLoader(yaml.Loader):
                 return self._construct_again(node)
             if isinstance(node, (yaml.SequenceNode, yaml.MappingNode)) and (not isinstance(known, ConfigNode) or known._is_plain_composed()):
                 return self._construct_again(node)
+            if isinstance(known, ConfigNode) and id(node) not in self.__dict__.get('_aliased_nodes', ()):
+                # met again without an alias of its own: a value which a merge key ('<<: *name') takes over from the mapping of the
+                # anchor - made afresh like everything else that stands below an alias
+                return self._construct_again(node)
 
         queued = len(self.state_generators)
         value = super().construct_object(node, deep=deep)
